@@ -271,6 +271,14 @@ r(x,k) <-- a(x), cnt(k), e(x,k);
 a(k) <-- r(_,k);
 """, "core par life", bound=4, dom=4)
 
+prog("multi_head_rec", """
+rel u(int) input; rel limit(int) input; rel reach(int); rel bucket(int); rel reach2(int); rel bucket2(int);
+reach(x) <-- u(x);
+reach(min(x + 1, 5)), bucket(min(x, 1)) <-- reach(x), limit(l), if x < l;
+reach2(x) <-- u(x);
+bucket2(min(x, 1)), reach2(min(x + 1, 5)) <-- reach2(x), limit(l), if x < l;
+""", "core par sugar life", bound=3, dom=4)
+
 # ------------------------------------------------------------------------------------------------ lattices (C03)
 prog("sp_dual", """
 rel e(int,int) input; lat sp(int,int,dual_i32);
@@ -364,6 +372,13 @@ cnt2(n) <-- agg n = count() in d(_, dual(2));
 nk(x,v) <-- e(x,_), for v in 0..5, !d(x, dual(v));
 pairs(x,y) <-- d(x,l), d(y,l), if x < y;
 """, "lat agg par", bound=4)
+
+prog("lat_input", """
+rel e(int,int) input; lat best(int,dual_i32) input; rel reached(int); rel close(int);
+best(y, dual(undual(l) + 1)) <-- best(x,l), e(x,y);
+reached(x) <-- best(x,_);
+close(x) <-- best(x,l), if undual(l) <= 1;
+""", "lat par pack life mono", bound=3)
 
 # ------------------------------------------------------------------------------------------------ agg / neg (C04)
 prog("count_paths", """
